@@ -79,7 +79,9 @@ fn main() {
             let suite = args[2].as_str();
             let mode = args[3].as_str();
             let text = std::fs::read_to_string(&args[4]).expect("cases file");
-            let cases: Vec<J> = text.lines().filter(|l| !l.trim().is_empty()).map(|l| serde_json::from_str(l).expect("case json")).collect();
+            let accept: Option<Vec<String>> = arg(&args, "--accept").map(|a| a.split(',').map(|x| x.to_string()).collect());
+            let cases: Vec<J> = text.lines().filter(|l| !l.trim().is_empty()).map(|l| serde_json::from_str::<J>(l).expect("case json"))
+                .filter(|c| match (&accept, c.get("mode").and_then(|m| m.as_str())) { (Some(a), Some(m)) => a.iter().any(|x| x == m), _ => true }).collect();
             let mut out = Out::new(&out_path);
             match suite {
                 "slice" => replay::slice_cases(mode, &cases, &mut out),
